@@ -78,16 +78,87 @@ Proof. vm_compute. reflexivity. Qed.
 Lemma ex_shape : o_shape (go_nifti ex_go) = Stack.Spec.grid_shape 2 2 3 2 1.
 Proof. vm_compute. reflexivity. Qed.
 
-(** the slices lie on a line with equal gaps *)
+Lemma ex_positions_ok : positions_ok ex_gs ex_st.
+Proof.
+  intros f g Hin Hg. rewrite ex_files in Hin. cbn [map ex_gs In] in Hin.
+  repeat (destruct Hin as [<-|Hin]; [cbv in Hg; injection Hg as <-; vm_compute; reflexivity|]).
+  contradiction.
+Qed.
+
+(** the slices lie on a line (displacement = slice indicator x (-1, 0, 0)) with equal gaps *)
+Lemma ex_sources_line : sources_line ex_gs ex_st [-1; 0; 0]%Q.
+Proof.
+  exists (ex_gfile 0 0), [0; 0; 0]%Q.
+  intros f g Hin Hg. rewrite ex_files in Hin. cbn [map ex_gs In] in Hin.
+  repeat (destruct Hin as [<-|Hin];
+          [cbv in Hg; injection Hg as <-;
+           split; [repeat split; try (intros r Hr; destruct r as [|[|[|r]]]; try lia); vm_compute; reflexivity
+                  | intros r Hr; destruct r as [|[|[|r]]]; try lia; vm_compute; reflexivity]|]).
+  contradiction.
+Qed.
+
 Lemma ex_sources_regular : sources_regular ex_gs ex_st.
 Proof.
-  exists (ex_gfile 0 0), [0; 0; 0]%Q, [-1; 0; 0]%Q, (-5 # 1)%Q, 2%Q. split.
-  - intros f g Hin Hg. rewrite ex_files in Hin. cbn [map ex_gs In] in Hin.
-    repeat (destruct Hin as [<-|Hin];
-            [cbv in Hg; injection Hg as <-;
-             split; [repeat split; try (intros r Hr; destruct r as [|[|[|r]]]; try lia); vm_compute; reflexivity
-                    | intros r Hr; destruct r as [|[|[|r]]]; try lia; vm_compute; reflexivity]|]).
-    contradiction.
-  - intros s Hs. assert (E : length (pos_vals ex_st) = 3) by (vm_compute; reflexivity). rewrite E in Hs.
-    destruct s as [|[|[|s]]]; try lia; vm_compute; reflexivity.
+  split; [eexists; exact ex_sources_line|]. exists (-5 # 1)%Q, 2%Q.
+  intros s Hs. assert (E : length (pos_vals ex_st) = 3) by (vm_compute; reflexivity). rewrite E in Hs.
+  destruct s as [|[|[|s]]]; try lia; vm_compute; reflexivity.
 Qed.
+
+(** the stored pixels of the example files are not rescaled *)
+Definition ex_rs (g : gfile) : rescale := mkrescale (g_pix g) 1 0 1.
+Lemma ex_rescaled : forall g, In g (go_files ex_go) -> rescaled_ok g (ex_rs g) = true.
+Proof.
+  intros g Hin. assert (E : go_files ex_go = [ex_gfile 2 0; ex_gfile 1 0; ex_gfile 0 0; ex_gfile 2 1; ex_gfile 1 1; ex_gfile 0 1])
+    by (vm_compute; reflexivity).
+  rewrite E in Hin. cbn [In] in Hin. repeat (destruct Hin as [<-|Hin]; [vm_compute; reflexivity|]). contradiction.
+Qed.
+
+(* ------------------------------------------------------------------------------------------ *)
+(** * An irregularly spaced series the sorter ACCEPTS: slices at x = 1, 3, 5.06 (gaps 2 and 2.06, within 4 %) *)
+
+Definition ex_irr_gfile (s : nat) : gfile :=
+  let x := nth s [1; 3; 253 # 50]%Q 0%Q in
+  mkgfile
+    (mkfile s true 2 2 [1; 1]%Q [0; 1; 0; 0; 0; 1]%Q (Q2Qc (- x)) None None [] None None 1 12 false)
+    [[Z.of_nat (100 * s); Z.of_nat (100 * s + 1)]; [Z.of_nat (100 * s + 10); Z.of_nat (100 * s + 11)]]
+    [0; 1; 0; 0; 0; 1]%Q [x; 0; 0]%Q (1, 1)%Q 1%Q ex_u16 (Some 12) None.
+Definition ex_irr_gs : list gfile := [ex_irr_gfile 1; ex_irr_gfile 2; ex_irr_gfile 0].
+Definition ex_irr_st : state := run (init false false) (map (fun g => OAdd (g_file g)) ex_irr_gs).
+
+Lemma ex_irr_reachable : reachable ex_irr_st.
+Proof. exists false, false, (map (fun g => OAdd (g_file g)) ex_irr_gs). reflexivity. Qed.
+
+Lemma ex_irr_files : files ex_irr_st = map g_file ex_irr_gs.
+Proof. vm_compute. reflexivity. Qed.
+
+Lemma ex_irr_gfiles_ok : gfiles_ok ex_irr_gs ex_irr_st.
+Proof.
+  intros f Hin. rewrite ex_irr_files in Hin. cbn [map ex_irr_gs In] in Hin.
+  repeat (destruct Hin as [<-|Hin];
+          [eexists; split; [reflexivity|]; split; [reflexivity|]; split; [reflexivity|]; repeat constructor|]).
+  contradiction.
+Qed.
+
+Lemma ex_irr_positions_ok : positions_ok ex_irr_gs ex_irr_st.
+Proof.
+  intros f g Hin Hg. rewrite ex_irr_files in Hin. cbn [map ex_irr_gs In] in Hin.
+  repeat (destruct Hin as [<-|Hin]; [cbv in Hg; injection Hg as <-; vm_compute; reflexivity|]).
+  contradiction.
+Qed.
+
+Lemma ex_irr_sources_line : sources_line ex_irr_gs ex_irr_st [-1; 0; 0]%Q.
+Proof.
+  exists (ex_irr_gfile 0), [0; 0; 0]%Q.
+  intros f g Hin Hg. rewrite ex_irr_files in Hin. cbn [map ex_irr_gs In] in Hin.
+  repeat (destruct Hin as [<-|Hin];
+          [cbv in Hg; injection Hg as <-;
+           split; [repeat split; try (intros r Hr; destruct r as [|[|[|r]]]; try lia); vm_compute; reflexivity
+                  | intros r Hr; destruct r as [|[|[|r]]]; try lia; vm_compute; reflexivity]|]).
+  contradiction.
+Qed.
+
+Definition ex_irr_go : geom_out :=
+  ltac:(let r := eval vm_compute in (snd (conv_geom ex_irr_gs ex_irr_st [] false)) in
+        match r with Ok ?go => exact go end).
+Lemma ex_irr_conv : conv_geom ex_irr_gs ex_irr_st [] false = (fst (conv_geom ex_irr_gs ex_irr_st [] false), Ok ex_irr_go).
+Proof. vm_compute. reflexivity. Qed.
